@@ -10,13 +10,14 @@ import (
 )
 
 // Small helpers of package graph on which every other rule silently relies (round 11, DESIGN §7.16):
-//   MIRROR-KEY  hashcode|verbatim        the identity of a vertex is v.Hashcode() for a hashable vertex and v itself
-//                                        otherwise — nothing derived (no case folding, trimming, digest, repeated hashing)
-//   MIRROR-KEY  VertexID|is-hashcode     the exported identity is that very function's result
-//   MIRROR-VERT Vertices|complete        every entry of the vertex table is returned, unfiltered
-//   MIRROR-EDGE AddEdge|unconditional    the unweighted form always (re)writes the edge with weight 1
-//   HEAP-PATH   walk|only-exit / walk|map-read-only   the predecessor walk ends only where there is no predecessor
-//                                        and does not modify the map it is handed
+//
+//	MIRROR-KEY  hashcode|verbatim        the identity of a vertex is v.Hashcode() for a hashable vertex and v itself
+//	                                     otherwise — nothing derived (no case folding, trimming, digest, repeated hashing)
+//	MIRROR-KEY  VertexID|is-hashcode     the exported identity is that very function's result
+//	MIRROR-VERT Vertices|complete        every entry of the vertex table is returned, unfiltered
+//	MIRROR-EDGE AddEdge|unconditional    the unweighted form always (re)writes the edge with weight 1
+//	HEAP-PATH   walk|only-exit / walk|map-read-only   the predecessor walk ends only where there is no predecessor
+//	                                     and does not modify the map it is handed
 func runGraphHelpers(c *Ctx) {
 	p := c.P
 	hc := p.HashcodeFn()
@@ -107,6 +108,97 @@ func runGraphHelpers(c *Ctx) {
 		}
 		c.R.Add("MIRROR-VERT", "Vertices|complete", core.FuncName(vs), p.Pos(vs.Pos()), bad == "",
 			"Vertices returns every entry of the vertex table, taken from the table itself and unfiltered (callers replace, prune and plan over this list)", ternary(bad == "", fmt.Sprintf("%d append(s) of range values of the table", n), bad))
+	}
+	// OutEdges / InEdges: one table entry per key of the vertex's adjacency set
+	for _, name := range []string{"OutEdges", "InEdges"} {
+		ne := p.Method(p.Graph, "Graph", name)
+		if ne == nil {
+			continue
+		}
+		c.R.Func(core.FuncName(ne))
+		bad, n := "", 0
+		// the map a range runs over, seen through the parameter of a private step
+		var rangedMaps func(v ssa.Value, d int) []ssa.Value
+		rangedMaps = func(v ssa.Value, d int) []ssa.Value {
+			if prm, ok := v.(*ssa.Parameter); ok && d < 3 && p.PrivateHelper(prm.Parent()) {
+				var out []ssa.Value
+				idx := -1
+				for i, q := range prm.Parent().Params {
+					if q == prm {
+						idx = i
+					}
+				}
+				for _, s := range p.Callers(prm.Parent()) {
+					if idx >= 0 && idx < len(s.Common().Args) {
+						out = append(out, rangedMaps(s.Common().Args[idx], d+1)...)
+					}
+				}
+				return out
+			}
+			return []ssa.Value{v}
+		}
+		for _, r := range core.Returns(ne) {
+			for _, ap := range appendSites(ne, r.Results[0]) {
+				for _, e := range appendedValues(ap) {
+					n++
+					okE := false
+					var lk *ssa.Lookup
+					switch x := core.Strip(e).(type) {
+					case *ssa.Lookup:
+						lk = x
+					case *ssa.Extract:
+						lk, _ = x.Tuple.(*ssa.Lookup)
+					}
+					if lk != nil {
+						if ref := c.classifyMap(gf, lk.X); ref.level == "hash" {
+							if kx, ok := core.Strip(lk.Index).(*ssa.Extract); ok && kx.Index == 1 {
+								if nx, ok := kx.Tuple.(*ssa.Next); ok {
+									if rg, ok := nx.Iter.(*ssa.Range); ok {
+										okE = true
+										for _, m := range rangedMaps(rg.X, 0) {
+											if ar := c.classifyMap(gf, m); ar.level != "inner" {
+												okE = false
+											}
+										}
+									}
+								}
+							}
+						}
+					}
+					if !okE {
+						bad = "an element is " + core.Path(e) + ", not the vertex table's entry for a key of the adjacency set"
+					}
+					for _, l := range core.Lits(core.Guards(ap.Block())) {
+						if core.IsLoopBound(l) {
+							continue
+						}
+						// "the set is not empty" (an early return of nil for a vertex without neighbours)
+						if l.Kind == "cmp" && (l.Op == token.EQL || l.Op == token.NEQ || l.Op == token.GTR) {
+							if cl, ok := core.Strip(l.X).(*ssa.Call); ok && core.CalleeName(cl.Common()) == "builtin.len" {
+								if k, isK := core.ConstInt(l.Y); isK && k == 0 {
+									if ar := c.classifyMap(gf, core.Strip(cl.Common().Args[0])); ar.level == "inner" {
+										continue
+									}
+									if _, isP := core.Strip(cl.Common().Args[0]).(*ssa.Parameter); isP {
+										continue
+									}
+								}
+							}
+							if core.IsNilConst(l.Y) || core.IsNilConst(l.X) {
+								continue
+							}
+						}
+						bad = "the append is filtered by " + l.String()
+					}
+				}
+			}
+		}
+		if n == 0 && bad == "" {
+			bad = "no append of vertex table entries found"
+		}
+		c.R.Add("MIRROR-VERT", name+"|complete", core.FuncName(ne), p.Pos(ne.Pos()), bad == "",
+			name+" returns the vertex table's entry for every key of the vertex's adjacency set — one per neighbour, none passed over, none twice (two neighbours may print alike)",
+			ternary(bad == "", fmt.Sprintf("%d append(s) of table entries by adjacency key", n), bad))
 	}
 	// AddEdge
 	if ae := p.Method(p.Graph, "Graph", "AddEdge"); ae != nil {
@@ -205,6 +297,59 @@ func runGraphHelpers(c *Ctx) {
 					_ = pr
 				}
 			}
+		}
+		// what is returned is what the walk collected, whatever its length: a path of one vertex is the source's own path
+		{
+			badRet := ""
+			nret := 0
+			var appends []*ssa.BasicBlock
+			core.Instrs(ep, func(in ssa.Instruction) {
+				if cl, ok := in.(*ssa.Call); ok && core.CalleeName(cl.Common()) == "builtin.append" {
+					appends = append(appends, cl.Block())
+				}
+			})
+			afterAppend := func(b *ssa.BasicBlock) bool {
+				for _, ab := range appends {
+					if ab == b || core.ReachableAvoiding(ab, b, nil) {
+						return true
+					}
+				}
+				return false
+			}
+			// a nil that arrives at a return over an edge that lies after an append throws the collected vertices away
+			var nilAfter func(v ssa.Value, at *ssa.BasicBlock, d int) bool
+			seenPhi := map[*ssa.Phi]bool{}
+			nilAfter = func(v ssa.Value, at *ssa.BasicBlock, d int) bool {
+				if d > 6 {
+					return false
+				}
+				switch x := core.Strip(v).(type) {
+				case *ssa.Const:
+					return x.Value == nil && afterAppend(at)
+				case *ssa.Phi:
+					if seenPhi[x] {
+						return false
+					}
+					seenPhi[x] = true
+					for i, e := range x.Edges {
+						if i < len(x.Block().Preds) && nilAfter(e, x.Block().Preds[i], d+1) {
+							return true
+						}
+					}
+				}
+				return false
+			}
+			for _, r := range core.Returns(ep) {
+				if len(r.Results) != 1 {
+					continue
+				}
+				nret++
+				if nilAfter(r.Results[0], r.Block(), 0) {
+					badRet = "returns nil at " + p.InstrPos(r) + " after vertices were collected"
+				}
+			}
+			c.R.Add("HEAP-PATH", "walk|returns-what-it-collected", core.FuncName(ep), p.Pos(ep.Pos()), badRet == "" && nret > 0,
+				"EdgeToPath returns the vertices the walk collected, of whatever number (the source's own path is the source alone; a one-vertex result is not `no path`)", ternary(badRet == "", "every return hands back the collected list", badRet))
 		}
 		c.R.Add("HEAP-PATH", "walk|only-exit", core.FuncName(ep), p.Pos(ep.Pos()), exits == "",
 			"the predecessor walk ends only where a vertex has no predecessor (no step budget, no early return: a map without an entry for the source is walked to its end all the same)", ternary(exits == "", "single exit at the nil test", exits))
